@@ -148,8 +148,38 @@ def inline_demo():
           % (len(confs), len(drift)))
 
 
+def cppscan_demo():
+    base = "SPECIFICATION Spec\nCONSTANTS MaxLen = 6\n EmitFullLen = 0\n EmitMod = 100000000\n%sCHECK_DEADLOCK FALSE\n"
+    d = common.workdir("self_cs")
+
+    def run(name, extra, consts=""):
+        cfg = os.path.join(d, name + ".cfg")
+        open(cfg, "w").write(base % consts + extra)
+        return common.run_tlc("MCCppScan", cfg=cfg, name="self_cs_" + name, workers=6, heap="6g", timeout=900)
+    r = run("ok", "INVARIANT TextReq\nINVARIANT LitReq\nINVARIANT CommentReq\nINVARIANT LinesReq\n")
+    if not r.ok or r.violated_invariant:
+        fail("CppScan: the model of the scanner violates %s" % r.violated_invariant)
+    r = run("glue", "INVARIANT TextReq\n", " CommentSeparates <- Never\n")
+    if r.violated_invariant != "TextReq":
+        fail("CppScan: a scanner that removes comments without leaving white space is not rejected by TextReq")
+    r = run("cut", "INVARIANT TextReq\nINVARIANT CommentReq\n", " BlockBeforeLine <- Never\n")
+    if r.violated_invariant not in ("TextReq", "CommentReq"):
+        fail("CppScan: a scanner that cuts the line at a // inside a block comment is not rejected")
+    for probe in ("NoDeviation", "NoCommentWithText"):
+        r = run("vac_" + probe, "INVARIANT %s\n" % probe)
+        if r.violated_invariant != probe:
+            fail("CppScan: probe %s is not reached (vacuous)" % probe)
+    from vf import cppscan
+    res, confs, drift, tv, lv = cppscan.run("quick", "self", 4, 4, 1, 100000)
+    print("selftest: CppScan.tla agrees with the textbook scanner outside its three deviation classes on every text of up to 6 characters, rejects the scanner "
+          "before its two repairs; %d texts replayed into cpp::process, %d differ from the model, %d from the textbook" % (len(confs), len(drift), len(tv) + len(lv)))
+    if drift or tv or lv:
+        fail("CppScan: the real preprocessor differs: %s" % json.dumps((drift + tv + lv)[0])[:300])
+
+
 if __name__ == "__main__":
     try:
+        cppscan_demo()
         inline_demo()
         peephole_demo()
         branchfix_demo()
